@@ -154,6 +154,43 @@ def e2e_case(args) -> dict:
                     ("abandon", f"rust reader {args}: after abandoning a "
                      f"stream at {cut} the fresh pass yields {len(full)} "
                      f"examples (expected {len(py)})"))
+        # a shard the Python reader cannot read: the Rust reader must not turn
+        # that into a normal, shorter stream (same outcome kind), for every
+        # thread count and position of the unreadable shard
+        infos = list(ds_.shard_info_iterator("train"))
+        for pos in sorted({0, len(infos) // 2, len(infos) - 1}):
+            victim = ds_.path / infos[pos].file_infos[0].file_path
+            hidden = victim.with_suffix(".hidden")
+            os.rename(victim, hidden)
+            try:
+                try:
+                    D.with_alarm(60, lambda: list(D.iterate(ds_, "train",
+                                                            "sync")))
+                    py_raises = False
+                except D.Watchdog:
+                    raise
+                except Exception:  # pylint: disable=broad-except
+                    py_raises = True
+                for T in Ts:
+                    out["cases"] += 1
+                    try:
+                        got = D.with_alarm(
+                            60, lambda: [key(e) for e in D.iterate(
+                                ds_, "train", "rust", file_parallelism=T)])
+                        rs_raises = False
+                    except D.Watchdog:
+                        raise
+                    except Exception:  # pylint: disable=broad-except
+                        rs_raises = True
+                    if py_raises and not rs_raises:
+                        out["bad"].append(
+                            ("unreadable-shard",
+                             f"rust reader {args} threads={T}: shard "
+                             f"{pos} of {len(infos)} is missing; the Python "
+                             f"reader raises, the Rust reader ends normally "
+                             f"after {len(got)} of {len(py)} examples"))
+            finally:
+                os.rename(hidden, victim)
         import time
         for _ in range(100):
             now = len(os.listdir("/proc/self/task"))
@@ -253,7 +290,9 @@ def run(ctx):
         "the rebuilt extension against the pure-Python reader for every "
         "supported compression, thread counts below/at/above the number "
         "of shards, two attribute layouts, shuffle 0 (same sequence) and "
-        ">0 (same multiset), abandonment at every position")
+        ">0 (same multiset), abandonment at every position, and a shard "
+        "the Python reader cannot read at the first/middle/last position "
+        "(the Rust reader must fail too, not end normally)")
     ctx.assumptions[:] = [
         "completion order of whole items is what the channel protocol can "
         "observe; instruction-level interleavings of safe Rust over mpsc "
